@@ -164,64 +164,26 @@ Definition expected_header (c : ccase) (n : nat) : header :=
            (match h_nsp h with [] => [47] | s => s end) (h_id h)
            (if is_binary (if bin then t + 3 else t) then Z.of_nat n else 0%Z).
 
-(** Index of an attachment by content (the harness makes every binary leaf distinct). *)
-Fixpoint index_of (x : bytes) (l : list bytes) (i : N) : option N :=
-  match l with
-  | [] => None
-  | y :: l' => if bytes_eqb x y then Some i else index_of x l' (i + 1)
-  end.
-
-(** The JSON part the protocol prescribes, placeholders numbered as the observed attachment
-    order says. *)
-Fixpoint with_ph (atts : list bytes) (b : jb) : option jv :=
-  match b with
-  | BNull => Some JNull
-  | BBool x => Some (JBool x)
-  | BInt z => Some (JInt z)
-  | BStr s => Some (JStr s)
-  | BBin x => match index_of x atts 0 with Some i => Some (ph_jv i) | None => None end
-  | BArr l =>
-    (fix go (l : list jb) (acc : list jv) : option jv :=
-       match l with
-       | [] => Some (JArr (rev acc))
-       | x :: l' => match with_ph atts x with Some j => go l' (j :: acc) | None => None end
-       end) l []
-  | BObj kvs =>
-    (fix go (l : list (bytes * jb)) (acc : list (bytes * jv)) : option jv :=
-       match l with
-       | [] => Some (JObj (rev acc))
-       | (k, x) :: l' => match with_ph atts x with Some j => go l' ((k, j) :: acc) | None => None end
-       end) kvs []
-  end.
-
-Definition nodup_bytes (l : list bytes) : bool :=
-  (fix go (l : list bytes) : bool :=
-     match l with
-     | [] => true
-     | x :: l' => negb (existsb (bytes_eqb x) l') && go l'
-     end) l.
-
-(** The frames are the ones the v5 protocol prescribes for this packet. *)
+(** The frames are the ones the v5 protocol prescribes for this packet: exactly the
+    specification printer's output (placeholders numbered left to right, attachments in that
+    order - equal, empty or nil binary leaves included). *)
 Definition wire_ok (c : ccase) : bool :=
-  match c_frames c with
-  | [] => false
-  | f0 :: atts =>
-    let data := match c_v c with Some x => Some (shape x) | None => None end in
-    let n := match data with Some b => count_bin b | None => O end in
-    let eh := expected_header c n in
-    Nat.eqb (length atts) (if is_binary (h_type eh) then n else O)
-    && (if is_binary (h_type eh) then nodup_bytes atts else true)
-    && match data with
-       | None => bytes_eqb f0 (encode_header eh)
-       | Some b =>
-         match (if is_binary (h_type eh) then with_ph atts b
-                else match to_jv jparse (match c_v c with Some x => x | None => VNil end) with
-                     | Ok j => Some j | _ => None end) with
-         | Some j => bytes_eqb f0 (encode_header eh ++ jprint j)
-         | None => false
-         end
-       end
-  end.
+  let h := c_h c in
+  let t := h_type h in
+  let nsp := match h_nsp h with [] => [47] | s => s end in
+  let data := match c_v c with Some x => Some (shape x) | None => None end in
+  let n := match data with Some b => count_bin b | None => O end in
+  if ((t =? 2) || (t =? 3) || is_binary t) || Nat.eqb n 0
+  then frames_eqb (c_frames c) (spec_frames jprint (if is_binary t then t - 3 else t) nsp (h_id h) data)
+  else (* a packet type that is never deconstructed: the JSON encoder writes the Binary cells as they are *)
+    match c_frames c, c_v c with
+    | [f0], Some x =>
+      match to_jv jparse x with
+      | Ok j => bytes_eqb f0 (encode_header (expected_header c n) ++ jprint j)
+      | _ => false
+      end
+    | _, _ => false
+    end.
 
 (** Decoding the frames gives the packet back. *)
 Definition roundtrip_header_ok (c : ccase) : bool :=
